@@ -191,7 +191,7 @@ func checkTiers(scope PolicyScope, store *policystore.PolicyStore, ep *proto.Wor
 			switch action {
 			case NO_MATCH:
 				if tierDefaultActionRuleID == nil {
-					tierDefaultActionRuleID = calc.NewRuleID(pID.Kind, tier.GetName(), pID.Name, pID.Namespace, tierDefaultActionIndex, dir, ruleActionFromStr(tier.DefaultAction))
+					tierDefaultActionRuleID = calc.NewRuleID(pID.Kind, tier.GetName(), pID.Name, pID.Namespace, tierDefaultActionIndex, dir, tierDefaultAction(tier))
 				}
 				continue Policy
 			// If the Policy matches, end evaluation (skipping profiles, if any)
@@ -241,7 +241,11 @@ func checkTiers(scope PolicyScope, store *policystore.PolicyStore, ep *proto.Wor
 				s.Code = OK
 				trace = append(trace, calc.NewRuleID(v3.KindProfile, profileStr, name, "", ruleIndex, dir, rules.RuleActionAllow))
 				return
-			case DENY, PASS:
+			case PASS:
+				// As in the iptables, nftables and BPF dataplanes, a Pass rule in a profile ends the
+				// evaluation of that profile only; the next profile (if any) gets to decide.
+				continue
+			case DENY:
 				s.Code = PERMISSION_DENIED
 				trace = append(trace, calc.NewRuleID(v3.KindProfile, profileStr, name, "", ruleIndex, dir, rules.RuleActionDeny))
 				return
@@ -318,6 +322,16 @@ func actionFromString(s string) Action {
 		panic(&InvalidDataFromDataPlane{"got bad action"})
 	}
 	return a
+}
+
+// tierDefaultAction returns the action applied at the end of a tier when no policy matched. As in
+// the iptables, nftables and BPF dataplanes (and calc.EndpointData), anything but "Pass" - including
+// the empty string Felix sends for a tier without an explicit default action - means deny.
+func tierDefaultAction(tier *proto.TierInfo) rules.RuleAction {
+	if tier.GetDefaultAction() == string(v3.Pass) {
+		return rules.RuleActionPass
+	}
+	return rules.RuleActionDeny
 }
 
 // ruleActionFromStr converts a string to a rules.RuleAction. It panics if the string is not a
